@@ -99,15 +99,24 @@ Section Stroke.
     end.
 
   Variable include_interp : bool.
-  Definition probe_strategy (strategy : JV) (poses : list APose) (stopped : bool) : option (list AJ) :=
-    match poses with
-    | [] => Some [(strategy, F_LAND)]
-    | p0 :: rest =>
-        match probe_loop p0 rest [(strategy, F_LAND)] strategy with
-        | None => None
-        | Some tr =>
-            if stopped then None
-            else Some (if include_interp then tr else filter (fun a => negb (Z.testbit (snd a) 3)) tr)
+  (** the on-boarding leg (RRT from the caller's start joints to the landing solution, its last node replaced by the LAND point)
+      followed by the Cartesian part *)
+  Definition F_ONBOARDING : Z := 2.
+  Definition onboard (onb : list JV) (strategy : JV) : list AJ :=
+    map (fun s => (s, F_ONBOARDING)) (removelast onb) ++ [(strategy, F_LAND)].
+  Definition probe_strategy (start strategy : JV) (poses : list APose) (stopped : bool) : option (list AJ) :=
+    match rrt start strategy with
+    | None => None
+    | Some onb =>
+        match poses with
+        | [] => Some (onboard onb strategy)
+        | p0 :: rest =>
+            match probe_loop p0 rest (onboard onb strategy) strategy with
+            | None => None
+            | Some tr =>
+                if stopped then None
+                else Some (if include_interp then tr else filter (fun a => negb (Z.testbit (snd a) 3)) tr)
+            end
         end
     end.
 
@@ -127,6 +136,6 @@ Section Stroke.
       | [] => None
       | _ =>
           let poses := with_intermediate_poses land steps park in
-          choose (filter_map_o (fun s => probe_strategy s poses (stop_seen s)) strategies)
+          choose (filter_map_o (fun s => probe_strategy from s poses (stop_seen s)) strategies)
       end.
 End Stroke.
